@@ -620,6 +620,51 @@ class Facts:
                     res.append(c)
         return res
 
+    def lock_for_type(self, prot):
+        """the struct field `Owner.field` whose type is a lock around type `prot` (unique), e.g.
+        LevelManifest -> CoreInner.level_manifest"""
+        m = getattr(self, "_lock_types", None)
+        if m is None:
+            m = defaultdict(set)
+            for a in self.adts.values():
+                for v in a["variants"]:
+                    for (fname, fty, _pub) in v["fields"]:
+                        for lk in ("RwLock<", "Mutex<"):
+                            k = fty.find(lk)
+                            if k >= 0:
+                                inner = fty[k + len(lk):]
+                                # strip RawRwLock param of lock_api types
+                                depth = 0
+                                cur = []
+                                parts = []
+                                for ch in inner:
+                                    if ch == "<":
+                                        depth += 1
+                                    if ch == ">":
+                                        if depth == 0:
+                                            break
+                                        depth -= 1
+                                    if ch == "," and depth == 0:
+                                        parts.append("".join(cur).strip())
+                                        cur = []
+                                        continue
+                                    cur.append(ch)
+                                parts.append("".join(cur).strip())
+                                t = strip_type_generics(parts[-1])
+                                m[t].add("%s.%s" % (last_seg(a["path"]), fname))
+            self._lock_types = m
+        c = m.get(prot) or m.get(last_seg(prot))
+        if not c:
+            c = {v for k, vs in m.items() if last_seg(k) == last_seg(prot) for v in vs}
+        cs = sorted(c)
+        if not cs:
+            return None
+        # several fields hold the same Arc'd lock (CoreInner / CompactionOptions): prefer CoreInner
+        for x in cs:
+            if x.startswith("CoreInner."):
+                return x
+        return cs[0] if len(cs) == 1 else None
+
     def fn_of(self, body):
         """the enclosing named function of a closure/coroutine body (or the body itself)"""
         while body.parent and body.parent in self.bodies:
@@ -837,6 +882,9 @@ LOCK_ACQUIRE = {
     "lock_api::Mutex::lock": "mutex",
     "lock_api::RwLock::read": "read",
     "lock_api::RwLock::write": "write",
+    "guardian::ArcRwLockReadGuardian::take": "read",
+    "guardian::ArcRwLockWriteGuardian::take": "write",
+    "guardian::ArcMutexGuardian::take": "mutex",
 }
 LOCK_TRY = {
     "parking_lot::lock_api::Mutex::try_lock", "parking_lot::lock_api::RwLock::try_read",
@@ -910,7 +958,8 @@ def lock_identity(body, call):
 
 
 GUARD_TYPES = ("MutexGuard<", "RwLockReadGuard<", "RwLockWriteGuard<", "RwLockUpgradableReadGuard<",
-               "MappedMutexGuard<", "MappedRwLockReadGuard<", "MappedRwLockWriteGuard<")
+               "MappedMutexGuard<", "MappedRwLockReadGuard<", "MappedRwLockWriteGuard<",
+               "ArcRwLockReadGuardian<", "ArcRwLockWriteGuardian<", "ArcMutexGuardian<")
 DROP_FNS = {"std::mem::drop", "core::mem::drop"}
 
 
@@ -940,6 +989,7 @@ def guard_regions(body, wrappers=None):
     (returned / stored / passed to another function)."""
     wrappers = wrappers or {}
     res = []
+    starts = []
     for c in body.calls:
         if c.bb not in body.live or c.target is None:
             continue
@@ -958,9 +1008,22 @@ def guard_regions(body, wrappers=None):
             lock = lock_identity(body, c)
         if len(c.dest) != 1:
             continue
+        starts.append((c, mode, lock, c.target, c.dest[0]))
+    # guards received by value as parameters: held from function entry
+    if body.kind in ("fn", "method"):
+        for l in range(1, body.argc + 1):
+            ty = body.local_ty(l)
+            if _is_guard_ty(ty) and not ty.startswith("&"):
+                inner = split_generic_args(ty)
+                prot = strip_type_generics(inner[-1]) if inner else "?"
+                mode = "read" if "Read" in ty else ("mutex" if "Mutex" in ty else "write")
+                lock = body.facts.lock_for_type(prot) or ("guard-param:%s" % last_seg(prot))
+                pc = ParamAcquire(body, l)
+                starts.append((pc, mode, lock, 0, l))
+    for c, mode, lock, start_bb, start_local in starts:
         # forward dataflow: block -> set of owner locals at block entry
-        entry = {c.target: frozenset([c.dest[0]])}
-        work = deque([c.target])
+        entry = {start_bb: frozenset([start_local])}
+        work = deque([start_bb])
         held_at_term = set()
         escapes = []
         release_calls = set()
@@ -1028,10 +1091,22 @@ def guard_regions(body, wrappers=None):
                 if new != old:
                     entry[x] = new
                     work.append(x)
-        g = Guard(c, mode, lock, c.dest[0], held_at_term, [e for e in escapes])
+        g = Guard(c, mode, lock, start_local, held_at_term, [e for e in escapes])
         g.release_calls = release_calls
         res.append(g)
     return res
+
+
+class ParamAcquire:
+    """pseudo call site standing for 'guard received as parameter' """
+
+    def __init__(self, body, local):
+        self.body, self.bb, self.line = body, 0, body.line
+        self.primary = "<guard parameter %s>" % (body.local_name(local) or local)
+        self.targets, self.names, self.args, self.dest, self.target = [], set(), [], [local], 0
+
+    def where(self):
+        return self.body.where()
 
 
 def lock_wrappers(facts):
@@ -1053,3 +1128,476 @@ def lock_wrappers(facts):
         if not changed:
             break
     return w
+
+
+# ----------------------------------------------------------------------------------------
+# comparisons as finite relations (the "values touched only through comparisons" domain)
+
+REL = {"Lt": {"lt"}, "Le": {"lt", "eq"}, "Gt": {"gt"}, "Ge": {"gt", "eq"}, "Eq": {"eq"}, "Ne": {"lt", "gt"}}
+ALLREL = frozenset({"lt", "eq", "gt"})
+_MIRROR = {"lt": "gt", "gt": "lt", "eq": "eq"}
+CMP_METHODS = {"lt": "Lt", "le": "Le", "gt": "Gt", "ge": "Ge", "eq": "Eq", "ne": "Ne"}
+
+
+def mirror(rel):
+    return frozenset(_MIRROR[r] for r in rel)
+
+
+def rel_str(rel):
+    rel = frozenset(rel)
+    return {frozenset({"lt"}): "<", frozenset({"lt", "eq"}): "<=", frozenset({"gt"}): ">",
+            frozenset({"gt", "eq"}): ">=", frozenset({"eq"}): "==", frozenset({"lt", "gt"}): "!=",
+            frozenset(): "never", ALLREL: "always"}.get(rel, str(sorted(rel)))
+
+
+class Cmp:
+    """a comparison site: `dest = lhs <op> rhs` (BinaryOp, PartialOrd/PartialEq method call, or
+    Ord::cmp / Comparator::compare producing an Ordering)"""
+
+    def __init__(self, body, bb, kind, lhs, rhs, dest, line, op=None, call=None):
+        self.body, self.bb, self.kind = body, bb, kind
+        self.lhs, self.rhs, self.dest, self.line = lhs, rhs, dest, line
+        self.op = op
+        self.call = call
+
+    def where(self):
+        return "%s:%d" % (self.body.file, self.line)
+
+    def edges(self):
+        """{successor block: frozenset(relation of lhs vs rhs)} at the switch that consumes
+        the comparison result, or None if it is not consumed by a switch we understand"""
+        b = self.body
+        holders = {self.dest: (False,)}  # local -> negated?
+        neg = {self.dest: False}
+        start = self.bb if self.kind == "bin" else (self.call.target if self.call else None)
+        if start is None:
+            return None
+        cur = start
+        seen = set()
+        first = True
+        while cur is not None and cur not in seen and len(seen) < 8:
+            seen.add(cur)
+            bl = b.blocks[cur]
+            discr_of = {}
+            for st in bl["s"]:
+                if st[0] != "=":
+                    continue
+                lhs, rv = st[1], st[2]
+                if len(lhs) != 1:
+                    continue
+                if rv[0] == "use" and rv[1][0] in ("c", "m") and len(rv[1][1]) == 1 and rv[1][1][0] in neg:
+                    neg[lhs[0]] = neg[rv[1][1][0]]
+                elif rv[0] == "un" and rv[1] == "Not" and rv[2][0] in ("c", "m") and rv[2][1][0] in neg:
+                    neg[lhs[0]] = not neg[rv[2][1][0]]
+                elif rv[0] == "discr" and rv[1][0] in neg and self.kind == "ord":
+                    discr_of[lhs[0]] = True
+                    neg[lhs[0]] = False
+            t = bl["t"]
+            if t[0] == "switch" and t[1][0] in ("c", "m") and t[1][1][0] in neg:
+                l = t[1][1][0]
+                res = {}
+                if self.kind == "ord":
+                    m = {"0": {"eq"}, "1": {"gt"}, "255": {"lt"}, "-1": {"lt"},
+                         "18446744073709551615": {"lt"}, "340282366920938463463374607431768211455": {"lt"}}
+                    used = set()
+                    for v, x in t[2]:
+                        r = m.get(v)
+                        if r is None:
+                            return None
+                        res[x] = frozenset(res.get(x, frozenset()) | r)
+                        used |= r
+                    rest = ALLREL - used
+                    if rest:
+                        res[t[3]] = frozenset(res.get(t[3], frozenset()) | rest)
+                    return res
+                base = frozenset(REL[self.op])
+                tr = (ALLREL - base) if neg[l] else base
+                fl = ALLREL - tr
+                for v, x in t[2]:
+                    r = fl if v == "0" else tr
+                    res[x] = frozenset(res.get(x, frozenset()) | r)
+                oth = tr if any(v == "0" for v, _ in t[2]) else fl
+                res[t[3]] = frozenset(res.get(t[3], frozenset()) | oth)
+                return res
+            if t[0] == "call":
+                # `matches!`/`==` on Ordering: <Ordering as PartialEq>::eq(&ord, &Ordering::X) -- not modelled
+                return None
+            if t[0] in ("goto", "falseedge", "falseunwind", "drop"):
+                cur = b.succ[cur][0] if b.succ[cur] else None
+                continue
+            return None
+        return None
+
+    def condition_to_reach(self, target):
+        """relation (lhs vs rhs) under which block `target` can be reached, provided every path
+        entry -> target passes this comparison's switch; None if the comparison does not control it"""
+        e = self.edges()
+        if e is None:
+            return None
+        b = self.body
+        sw = None
+        # the switch block is the common predecessor of the edge targets
+        for blk in range(len(b.blocks)):
+            if b.blocks[blk]["t"][0] == "switch" and set(e.keys()) <= set(b.succ[blk]) and blk in b.reachable_from([self.bb]):
+                # nearest one
+                sw = blk
+                break
+        if sw is None:
+            return None
+        return edge_condition(b, sw, e, target)
+
+
+def edge_condition(body, sw, edges, target):
+    """union of labels of those out-edges of switch block `sw` via which `target` stays reachable,
+    or None if target is reachable without passing `sw` at all"""
+    def reach(allowed_succ):
+        seen = {0}
+        dq = deque([0])
+        while dq:
+            x = dq.popleft()
+            if x == target and x != 0:
+                return True
+            ss = body.succ[x]
+            if x == sw:
+                ss = [s for s in ss if s in allowed_succ]
+            for y in ss:
+                if y not in seen:
+                    seen.add(y)
+                    dq.append(y)
+        return target in seen
+    if target == sw:
+        return None
+    if reach(set()):
+        return None
+    res = frozenset()
+    for s, lab in edges.items():
+        if reach({s}):
+            res |= lab
+    return res
+
+
+def comparisons(body):
+    res = []
+    for i, j, lhs, rv, line in body.assigns():
+        if i not in body.live:
+            continue
+        if rv[0] == "bin" and rv[1] in REL and len(lhs) == 1:
+            res.append(Cmp(body, i, "bin", rv[2], rv[3], lhs[0], line, op=rv[1]))
+    for c in body.calls:
+        if c.bb not in body.live or len(c.args) != 2 or len(c.dest) != 1:
+            continue
+        meth = c.primary.split("::")[-1]
+        tr = c.callee.get("trait", "")
+        if tr in ("std::cmp::PartialOrd", "std::cmp::PartialEq") and meth in CMP_METHODS:
+            res.append(Cmp(body, c.bb, "call", c.args[0], c.args[1], c.dest[0], c.line, op=CMP_METHODS[meth], call=c))
+        elif (tr in ("std::cmp::Ord", "std::cmp::PartialOrd") and meth in ("cmp", "partial_cmp")) or \
+                (meth == "compare" and "Comparator" in c.callee.get("trait", "") + c.primary):
+            res.append(Cmp(body, c.bb, "ord", c.args[-2], c.args[-1], c.dest[0], c.line, call=c))
+    return res
+
+
+# ----------------------------------------------------------------------------------------
+# boolean results controlling branches
+
+
+def bool_edges(body, local, start_bb):
+    """{succ: frozenset({True|False})} for the switch consuming boolean `local` (through
+    moves and `!`), searching forward from start_bb; also returns the switch block."""
+    neg = {local: False}
+    cur = start_bb
+    seen = set()
+    while cur is not None and cur not in seen and len(seen) < 8:
+        seen.add(cur)
+        bl = body.blocks[cur]
+        for st in bl["s"]:
+            if st[0] != "=" or len(st[1]) != 1:
+                continue
+            rv = st[2]
+            if rv[0] == "use" and rv[1][0] in ("c", "m") and len(rv[1][1]) == 1 and rv[1][1][0] in neg:
+                neg[st[1][0]] = neg[rv[1][1][0]]
+            elif rv[0] == "un" and rv[1] == "Not" and rv[2][0] in ("c", "m") and rv[2][1][0] in neg:
+                neg[st[1][0]] = not neg[rv[2][1][0]]
+        t = bl["t"]
+        if t[0] == "switch" and t[1][0] in ("c", "m") and t[1][1][0] in neg:
+            n = neg[t[1][1][0]]
+            res = {}
+            for v, x in t[2]:
+                val = (v != "0") != n
+                res[x] = frozenset(res.get(x, frozenset()) | {val})
+            oth = (not any(v != "0" for v, _ in t[2])) != n if True else None
+            # otherwise-arm: if the listed value is 0 the otherwise arm means "true"
+            listed_zero = any(v == "0" for v, _ in t[2])
+            oval = (True if listed_zero else False) != n
+            res[t[3]] = frozenset(res.get(t[3], frozenset()) | {oval})
+            return res, cur
+        if t[0] in ("goto", "falseedge", "falseunwind", "drop"):
+            cur = body.succ[cur][0] if body.succ[cur] else None
+            continue
+        return None, None
+    return None, None
+
+
+def bool_call_condition(body, call, target):
+    """set of boolean results of `call` under which `target` is reachable (None: not controlled)"""
+    if call.target is None or len(call.dest) != 1:
+        return None
+    e, sw = bool_edges(body, call.dest[0], call.target)
+    if e is None:
+        return None
+    return edge_condition(body, sw, e, target)
+
+
+def option_edges(body, local, start_bb):
+    """{succ: {'Some'|'None'}} for a switch on discriminant(local) of an Option/Result-like"""
+    cur = start_bb
+    seen = set()
+    holders = {local}
+    while cur is not None and cur not in seen and len(seen) < 8:
+        seen.add(cur)
+        bl = body.blocks[cur]
+        dl = {}
+        for st in bl["s"]:
+            if st[0] != "=" or len(st[1]) != 1:
+                continue
+            rv = st[2]
+            if rv[0] == "use" and rv[1][0] in ("c", "m") and len(rv[1][1]) == 1 and rv[1][1][0] in holders:
+                holders.add(st[1][0])
+            if rv[0] == "ref" and len(rv[2]) == 1 and rv[2][0] in holders:
+                holders.add(st[1][0])
+            if rv[0] == "discr" and rv[1][0] in holders:
+                dl[st[1][0]] = True
+        t = bl["t"]
+        if t[0] == "switch" and t[1][0] in ("c", "m") and t[1][1][0] in dl:
+            res = {}
+            used = set()
+            for v, x in t[2]:
+                res[x] = frozenset(res.get(x, frozenset()) | {v})
+                used.add(v)
+            rest = {"0", "1"} - used
+            if rest:
+                res[t[3]] = frozenset(res.get(t[3], frozenset()) | rest)
+            return res, cur
+        if t[0] in ("goto", "falseedge", "falseunwind", "drop"):
+            cur = body.succ[cur][0] if body.succ[cur] else None
+            continue
+        return None, None
+    return None, None
+
+
+# ----------------------------------------------------------------------------------------
+# fate of Result values (error discipline)
+
+_DROPPING = {"ok", "unwrap_or", "unwrap_or_default", "unwrap_or_else", "is_ok", "is_err", "err"}
+
+
+def result_fate(body, call):
+    """what happens to the Result returned by `call`:
+    'propagated' (`?`, returned, passed on), 'handled' (matched / if let / map_err+?),
+    'dropped:<how>' (`let _ =`, `.ok()`, `unwrap_or*`, never read), 'panics' (unwrap/expect)."""
+    if not call.ret_ty.startswith("std::result::Result<") or len(call.dest) != 1:
+        return None
+    if call.target is None:
+        return "diverges"
+    holders = {call.dest[0]}
+    if call.dest[0] == 0:
+        return "propagated"
+    fate = None
+    changed = True
+    while changed:
+        changed = False
+        for i, j, lhs, rv, _ in body.assigns():
+            for pl in rvalue_places(rv):
+                if pl[0] in holders:
+                    if rv[0] == "discr":
+                        return "handled"
+                    if lhs[0] == 0:
+                        return "propagated"
+                    if rv[0] in ("use", "ref", "cfd") and len(lhs) == 1 and lhs[0] not in holders:
+                        holders.add(lhs[0])
+                        changed = True
+                    elif rv[0] == "agg":
+                        return "propagated"
+                    elif len(lhs) > 1:
+                        return "propagated"
+        for c in body.calls:
+            if c is call:
+                continue
+            for a in c.args:
+                if a[0] in ("c", "m") and a[1][0] in holders:
+                    meth = c.primary.split("::")[-1]
+                    if "Try>::branch" in c.primary or meth == "branch":
+                        return "propagated"
+                    if c.primary.startswith("std::result::Result::"):
+                        if meth in ("unwrap", "expect", "unwrap_err", "expect_err"):
+                            return "panics"
+                        if meth in _DROPPING:
+                            # `.ok()` whose Option is then used is a conversion, not a drop
+                            if meth in ("ok", "err") and len(c.dest) == 1 and _is_read(body, c.dest[0], c):
+                                return "converted:%s" % meth
+                            if meth in ("is_ok", "is_err"):
+                                return "handled"
+                            return "dropped:%s" % meth
+                        if len(c.dest) == 1 and c.dest[0] not in holders and c.ret_ty.startswith("std::result::Result<"):
+                            holders.add(c.dest[0])
+                            changed = True
+                            if c.dest[0] == 0:
+                                return "propagated"
+                            continue
+                        return "handled"
+                    if meth == "drop" and "mem::drop" in c.primary:
+                        return "dropped:drop()"
+                    return "propagated"
+    return "dropped:unused"
+
+
+def _is_read(body, local, defining_call):
+    for i, j, lhs, rv, _ in body.assigns():
+        for pl in rvalue_places(rv):
+            if pl[0] == local:
+                return True
+    for c in body.calls:
+        if c is defining_call:
+            continue
+        for a in c.args:
+            if a[0] in ("c", "m") and a[1][0] == local:
+                return True
+    return False
+
+
+# ----------------------------------------------------------------------------------------
+# tiny constant folder (named consts, literals, + - * & | << >> casts)
+
+
+def const_eval(facts, body, op, depth=0):
+    if depth > 12:
+        return None
+    if op[0] == "k":
+        k = op[1]
+        if "v" in k:
+            return int(k["v"])
+        if "cdef" in k and not k.get("promoted"):
+            c = facts.consts.get(k["cdef"])
+            if c and c["v"] is not None:
+                return int(c["v"])
+        return None
+    pl = op[1]
+    ds = body.defs().get(pl[0], [])
+    if len(ds) != 1 or ds[0][0] != "assign":
+        return None
+    rv = ds[0][3]
+    fields = [p for p in pl[1:] if isinstance(p, list) and p[0] == "f"]
+    if rv[0] == "use":
+        return const_eval(facts, body, rv[1], depth + 1)
+    if rv[0] == "cast":
+        return const_eval(facts, body, rv[2], depth + 1)
+    if rv[0] == "bin":
+        a = const_eval(facts, body, rv[2], depth + 1)
+        b = const_eval(facts, body, rv[3], depth + 1)
+        if a is None or b is None:
+            return None
+        o = rv[1].replace("WithOverflow", "").replace("Unchecked", "")
+        try:
+            return {"Add": a + b, "Sub": a - b, "Mul": a * b, "BitAnd": a & b, "BitOr": a | b,
+                    "Shl": a << b, "Shr": a >> b}[o]
+        except KeyError:
+            return None
+    return None
+
+
+def split_generic_args(ty):
+    """'std::result::Result<A<B, C>, D>' -> ['A<B, C>', 'D']"""
+    i = ty.find("<")
+    if i < 0 or not ty.endswith(">"):
+        return []
+    inner = ty[i + 1:-1]
+    out, depth, cur = [], 0, []
+    for k, ch in enumerate(inner):
+        if ch in "<([":
+            depth += 1
+        elif ch in ")]":
+            depth -= 1
+        elif ch == ">" and inner[k - 1] != "-":
+            depth -= 1
+        if ch == "," and depth == 0:
+            out.append("".join(cur).strip())
+            cur = []
+        else:
+            cur.append(ch)
+    if cur:
+        out.append("".join(cur).strip())
+    return out
+
+
+def result_err_type(ty):
+    if not ty.startswith("std::result::Result<"):
+        return None
+    a = split_generic_args(ty)
+    return a[1] if len(a) == 2 else None
+
+
+def feasible_reach(body, starts, avoid=()):
+    """blocks reachable from `starts` (>= 0 steps), pruning switch edges that contradict a
+    variant fact established on the way: after `x = Enum::Variant(..)` (aggregate) a later
+    `switch discriminant(x)` follows only that variant's edge, as long as x is not
+    re-assigned / mutably borrowed in between.  Sound over-approximation of feasible paths
+    (facts are only used to prune edges that are certainly not taken)."""
+    avoid = set(avoid)
+    seen = set()
+    out = set()
+    dq = deque((s, frozenset()) for s in starts)
+    n = 0
+    while dq and n < 200000:
+        n += 1
+        b, facts = dq.popleft()
+        if (b, facts) in seen:
+            continue
+        seen.add((b, facts))
+        out.add(b)
+        if b in avoid:
+            continue
+        fd = dict(facts)
+        bl = body.blocks[b]
+        discr = {}
+        for st in bl["s"]:
+            if st[0] != "=":
+                if st[0] == "setdiscr":
+                    fd.pop(st[1][0], None)
+                continue
+            lhs, rv = st[1], st[2]
+            tgt = lhs[0]
+            if rv[0] == "discr" and len(rv[1]) == 1 and len(lhs) == 1:
+                discr[tgt] = rv[1][0]
+                fd.pop(tgt, None)
+                continue
+            if len(lhs) == 1:
+                if rv[0] == "agg" and rv[3] and "vi" in rv[3]:
+                    fd[tgt] = rv[3]["vi"]
+                elif rv[0] == "use" and rv[1][0] in ("c", "m") and len(rv[1][1]) == 1 and rv[1][1][0] in fd:
+                    fd[tgt] = fd[rv[1][1][0]]
+                else:
+                    fd.pop(tgt, None)
+            else:
+                fd.pop(tgt, None)
+            if rv[0] == "ref" and rv[1]:
+                fd.pop(rv[2][0], None)
+            if rv[0] == "ptr":
+                fd.pop(rv[2][0], None)
+        t = bl["t"]
+        succ = body.succ[b]
+        if t[0] == "switch" and t[1][0] in ("c", "m") and len(t[1][1]) == 1 and t[1][1][0] in discr:
+            src = discr[t[1][1][0]]
+            if src in fd:
+                v = str(fd[src])
+                hit = [x for val, x in t[2] if val == v]
+                succ = hit if hit else [t[3]]
+        elif t[0] == "call":
+            c = body.call_at.get(b)
+            if c is not None:
+                fd.pop(c.dest[0], None)
+                for a in c.args:
+                    # a &mut borrow passed to a call may change the value: refs were killed above
+                    pass
+        nf = frozenset(fd.items())
+        for x in succ:
+            dq.append((x, nf))
+    return out
